@@ -66,6 +66,11 @@ def playback(prop, r, group):
         if not m:
             continue
         name = "%s_v%d" % (m.group(1), i)
+        # keep the test function only: Kani's doc comment above it quotes the check's message, which
+        # may span several lines without a `///` prefix
+        k = src.find("#[test]")
+        what = " ".join(l.strip().lstrip("/").strip() for l in src[:k].splitlines() if "Check for" in l)
+        src = "// %s\n%s" % (what.replace("\n", " ")[:200], src[k:])
         t = src.replace(m.group(1) + "()", name + "()")
         t = re.sub(r"kani::concrete_playback_run\(\s*concrete_vals\s*,\s*%s\s*\)" % re.escape(bare), "kani::concrete_playback_run(concrete_vals, %s)" % fq, t)
         tests.append(name)
